@@ -1047,3 +1047,93 @@ fn super_depth(import: &str) -> (usize, Option<&str>) {
 
     (super_cnt, suffix)
 }
+
+/// Verification hooks: drive the compiler's name-resolution units without compiling a program.
+#[cfg(feature = "verif-hooks")]
+impl<'a> Compiler<'a> {
+    /// enter a nested function the way a `Closure` card does
+    pub fn verif_compile_begin(&mut self) {
+        self.compile_begin()
+    }
+    pub fn verif_compile_end(&mut self) {
+        self.compile_end()
+    }
+    pub fn verif_scope_begin(&mut self) {
+        self.scope_begin()
+    }
+    pub fn verif_scope_end(&mut self) {
+        self.scope_end()
+    }
+    pub fn verif_function_id(&self) -> usize {
+        self.function_id
+    }
+    /// declare a local in the current function / scope; its slot index
+    pub fn verif_add_local(&mut self, name: &'a str) -> Option<u32> {
+        self.add_local(name).ok()
+    }
+    /// `resolve_var`: (0, 0) global, (1, slot) local, (2, upvalue index); None on error
+    pub fn verif_resolve_var(&mut self, name: &str) -> Option<(u8, usize)> {
+        match self.resolve_var(name) {
+            Ok(Variable::Global) => Some((0, 0)),
+            Ok(Variable::Local(i)) => Some((1, i)),
+            Ok(Variable::Upvalue(i)) => Some((2, i)),
+            Err(_) => None,
+        }
+    }
+    pub fn verif_upvalue_count(&self, function_id: usize) -> usize {
+        self.upvalues[function_id].len()
+    }
+    /// (is_local, index) of upvalue `i` of function `function_id`
+    pub fn verif_upvalue(&self, function_id: usize, i: usize) -> Option<(bool, u8)> {
+        self.upvalues[function_id]
+            .get(i)
+            .map(|u| (u.is_local, u.index))
+    }
+    pub fn verif_local_count(&self, function_id: usize) -> usize {
+        self.locals[function_id].len()
+    }
+    pub fn verif_local_captured(&self, function_id: usize, i: usize) -> Option<bool> {
+        self.locals[function_id].get(i).map(|l| l.captured)
+    }
+    /// bytes emitted so far (scope_end emits Pop / CloseUpvalue)
+    pub fn verif_bytecode(&self) -> &[u8] {
+        &self.program.bytecode
+    }
+    /// register a function under its full dotted name, like stage 1 does
+    pub fn verif_add_function(&mut self, full_name: &str, handle: Handle, arity: u32) -> bool {
+        self.jump_table
+            .insert(
+                full_name.to_string(),
+                FunctionMeta {
+                    hash_key: handle,
+                    arity,
+                },
+            )
+            .is_ok()
+    }
+    /// the namespace and imports the next `verif_resolve_function` call sees
+    pub fn verif_set_context(&mut self, namespace: &[&str], imports: &[(&str, &str)]) {
+        let mut ns = NameSpace::default();
+        for n in namespace {
+            ns.push(n.to_string().into_boxed_str());
+        }
+        let mut im = ImportsIr::default();
+        for (k, v) in imports {
+            im.insert(k.to_string(), v.to_string());
+        }
+        self.current_namespace = Cow::Owned(ns);
+        self.current_imports = Cow::Owned(im);
+    }
+    /// `resolve_function` against the registered functions: (handle, arity)
+    pub fn verif_resolve_function(&self, function: &str) -> Option<(Handle, u32)> {
+        self.resolve_function(&self.jump_table, function)
+            .ok()
+            .map(|m| (m.hash_key, m.arity))
+    }
+}
+
+/// `super_depth` of an import path: (number of leading `super.` steps, the rest of the path)
+#[cfg(feature = "verif-hooks")]
+pub fn verif_super_depth(import: &str) -> (usize, Option<&str>) {
+    super_depth(import)
+}
